@@ -22,7 +22,7 @@ use thiserror::Error;
 use tracing::instrument;
 
 use crate::{
-    serde::{JsonObject, Raw, StringEnum},
+    serde::{JsonObject, OrdAsRefStr, PartialOrdAsRefStr, Raw, StringEnum},
     OwnedRoomId, OwnedUserId, PrivOwnedStr,
 };
 
@@ -727,7 +727,7 @@ pub enum PushFormat {
 
 /// The kinds of push rules that are available.
 #[doc = include_str!(concat!(env!("CARGO_MANIFEST_DIR"), "/src/doc/string_enum.md"))]
-#[derive(Clone, PartialEq, Eq, PartialOrd, Ord, StringEnum)]
+#[derive(Clone, PartialEq, Eq, PartialOrdAsRefStr, OrdAsRefStr, StringEnum)]
 #[ruma_enum(rename_all = "snake_case")]
 #[non_exhaustive]
 pub enum RuleKind {
